@@ -77,3 +77,4 @@ def run(ctx, R):
     a64dsread.rule_dsread(ctx, R)
     a64dsread.rule_loopload(ctx, R)
     rvdsread.rule_dsread(ctx, R)
+    rvdsread.rule_loopload(ctx, R)
